@@ -48,6 +48,16 @@ def leaf_vec(x, u, yv, ys):
         yv.next = x ^ u.bitvector
         ys.next = u.resize(3) + 1
 
+def leaf_io(d, io, q):
+    @std.concurrent
+    def logic():
+        q.next = d ^ io
+
+def leaf_iovec(iov, y):
+    @std.concurrent
+    def logic():
+        y.next = iov + 1
+
 def leaf_fsm(clk, go, pulse, cnt):
     @std.sequential(std.Clock(clk))
     async def proc():
@@ -77,6 +87,19 @@ class LeafVec(Entity):
     ys = Port.output(Unsigned[3])
     def architecture(self):
         leaf_vec(self.x, self.u, self.yv, self.ys)
+
+class LeafIo(Entity):
+    d = Port.input(Bit)
+    io = Port.inout(Bit)
+    q = Port.output(Bit)
+    def architecture(self):
+        leaf_io(self.d, self.io, self.q)
+
+class LeafIoVec(Entity):
+    iov = Port.inout(Unsigned[2])
+    y = Port.output(Unsigned[2])
+    def architecture(self):
+        leaf_iovec(self.iov, self.y)
 
 class LeafFsm(Entity):
     clk = Port.input(Bit)
@@ -108,13 +131,16 @@ class Mid(Entity):
         mid_logic(self.clk, self.a, self.b, self.y, self.z, True)
 """
 
-TOP_PORTS = [("clk", "in", "Bit"), ("i", "in", "BitVector[4]"), ("j", "in", "Unsigned[2]"), ("o", "out", "BitVector[4]"),
+TOP_PORTS = [("clk", "in", "Bit"), ("i", "in", "BitVector[4]"), ("j", "in", "Unsigned[2]"), ("io", "inout", "Bit"), ("iov", "inout", "BitVector[2]"),
+             ("o", "out", "BitVector[4]"),
              ("ou", "out", "Unsigned[3]"), ("oc", "out", "Unsigned[2]"), ("ob", "out", "Bit")]
 TOP_DECL = """
 class T(Entity):
     clk = Port.input(Bit)
     i = Port.input(BitVector[4])
     j = Port.input(Unsigned[2])
+    io = Port.inout(Bit)
+    iov = Port.inout(BitVector[2])
     o = Port.output(BitVector[4], default="0000")
     ou = Port.output(Unsigned[3], default=0)
     oc = Port.output(Unsigned[2], default=0)
@@ -137,6 +163,8 @@ XOR = ("LeafXor", "leaf_xor", ["a", "b", "y"])
 REG = ("LeafReg", "leaf_reg", ["clk", "d", "q"])
 VEC = ("LeafVec", "leaf_vec", ["x", "u", "yv", "ys"])
 FSM = ("LeafFsm", "leaf_fsm", ["clk", "go", "pulse", "cnt"])
+IO = ("LeafIo", "leaf_io", ["d", "io", "q"])
+IOV = ("LeafIoVec", "leaf_iovec", ["iov", "y"])
 
 
 def designs():
@@ -159,6 +187,12 @@ def designs():
                          ("self.i[2:1]", "self.i[3:2].unsigned", "self.oc.bitvector", "self.o[2:0].unsigned")]:
         add(f"single-vec/{x},{u}->{yv}", lambda h, x=x, u=u, yv=yv, ys=ys: [inst(h, *VEC, dict(x=x, u=u, yv=yv, ys=ys))],
             [("leafvec", dict(x=x, u=u, yv=yv, ys=ys))])
+    # inout ports: forwarded whole and through a typed view (conversion needed on both sides of the association)
+    add("single-io", lambda h: [inst(h, *IO, dict(d="self.i[0]", io="self.io", q="self.ob"))], [("leafio", dict(d="self.i[0]", io="self.io", q="self.ob"))])
+    add("single-iovec-view", lambda h: [inst(h, *IOV, dict(iov="self.iov.unsigned", y="self.oc"))],
+        [("leafiovec", dict(iov="self.iov.unsigned", y="self.oc"))])
+    add("io-twice", lambda h: SIG4 + [inst(h, *IO, dict(d="self.i[0]", io="self.io", q="t0")), inst(h, *IO, dict(d="self.i[1]", io="self.io", q="t1"))] + PUB2,
+        [("leafio", dict(d="self.i[0]", io="self.io", q="t0")), ("leafio", dict(d="self.i[1]", io="self.io", q="t1"))])
     add("single-fsm", lambda h: [inst(h, *FSM, dict(clk="self.clk", go="self.i[0]", pulse="self.ob", cnt="self.oc"))],
         [("leaffsm", dict(clk="self.clk", go="self.i[0]", pulse="self.ob", cnt="self.oc"))])
     # same template twice / four times on bit actuals (each instance drives its own signal: cohdl rejects two instances
@@ -166,6 +200,7 @@ def designs():
     SIG4 = ["t0 = Signal[Bit](False, name='t0')", "t1 = Signal[Bit](False, name='t1')", "t2 = Signal[Bit](False, name='t2')",
             "t3 = Signal[Bit](False, name='t3')"]
     PUB4 = ["@std.concurrent", "def pub():", "    self.o <<= t3 @ t2 @ t1 @ t0"]
+    PUB2 = ["@std.concurrent", "def pub():", "    self.o[1:0] <<= t1 @ t0"]
     add("twice-xor", lambda h: SIG4 + [inst(h, *XOR, dict(a="self.i[0]", b="self.i[1]", y="t0")),
                                        inst(h, *XOR, dict(a="self.i[2]", b="self.i[3]", y="t1"))] + PUB4,
         [("leafxor", dict(a="self.i[0]", b="self.i[1]", y="t0")), ("leafxor", dict(a="self.i[2]", b="self.i[3]", y="t1"))])
@@ -327,11 +362,12 @@ OUTS = ["o", "ou", "oc", "ob"]
 
 
 class EqSystem:
-    def __init__(self, sa, sb):
+    def __init__(self, sa, sb, uses_io=False):
         self.a, self.b = sa, sb
         for s in (sa, sb):
-            s.set_many(dict(clk=0, i=0, j=0))
-        self.menu = INPUTS
+            s.set_many(dict(clk=0, i=0, j=0, io=0, iov=0))
+        # designs that use the inout ports are explored with the environment driving them too (reduced i alphabet)
+        self.menu = INPUTS if not uses_io else [(i, j, io, iov) for i in (0, 1, 2, 3) for j in (0, 3) for io in (0, 1) for iov in range(4)]
 
     def snapshot(self):
         return (self.a.snapshot(), self.b.snapshot())
@@ -355,7 +391,7 @@ class EqSystem:
 
     def apply(self, ch):
         for s in (self.a, self.b):
-            s.set_many(dict(i=ch[0], j=ch[1]))
+            s.set_many(dict(i=ch[0], j=ch[1]) if len(ch) == 2 else dict(i=ch[0], j=ch[1], io=ch[2], iov=ch[3]))
         m = self.cmp("after input change")
         if m:
             return m
@@ -472,12 +508,17 @@ def analyse(idx):
         return out
     for f in dh.findings:
         out["problems"].append((f.rule, f.msg))
+    # no source design writes its in / inout ports: the emitted architecture must not contain a driver for them
+    for pn, mode, _ in TOP_PORTS:
+        if mode != "out" and dh.driver_table.get(f"t.{pn}"):
+            out["problems"].append(("port-driver", f"{mode} port '{pn}' of the top entity is never written in the source but is driven by "
+                                                   f"{dh.driver_table[f't.{pn}']} in the emitted architecture"))
     nent = len(dh.entity_order)
     out["entities"] = nent
     if dh.findings:
         return out  # statically invalid text: behaviour is not defined
     try:
-        r = bfs(EqSystem(dh.sim(), df.sim()), max_states=300000)
+        r = bfs(EqSystem(dh.sim(), df.sim(), uses_io=any("self.io" in l for l in builder(True))), max_states=300000)
     except rt.SimError as e:
         out["problems"].append(("simerror", str(e)))
         return out
